@@ -139,7 +139,7 @@ theorem closeRet_isHandle (op : Op) (r : Ret) (b : Bool) (h : r.isHandle = false
 theorem afterOpen_spec (op : Op) (fd : Fd) :
     (afterOpen op fd).retNoHandle ∧ (∀ s, afterOpen op fd ≠ .user s) ∧
     ∀ fd', (afterOpen op fd).fd? = some fd' → fd = fd' ∧ (afterOpen op fd).locked = true := by
-  cases op <;> simp only [afterOpen]
+  cases op <;> simp only [afterOpen, finPc_eq]
   case write p content => split <;> simp [Pc.retNoHandle, Pc.fd?, Pc.locked, Ret.isHandle]
   all_goals simp [Pc.retNoHandle, Pc.fd?, Pc.locked]
 
@@ -147,7 +147,7 @@ theorem advancePc_data (op : Op) (pc : Pc) (n : Nat) (r : Res) (hd : pc.isData =
     (advancePc op pc n r).retNoHandle ∧ (∀ s, advancePc op pc n r ≠ .user s) ∧
     ∀ fd', (advancePc op pc n r).fd? = some fd' → pc.fd? = some fd' ∧ (advancePc op pc n r).locked = true := by
   cases pc <;> simp [Pc.isData] at hd
-  all_goals simp only [advancePc, rollbackPc, Gen.Lockedfile.truncAfterLock, if_true]
+  all_goals simp only [advancePc, finPc_eq, rollbackPc, Gen.Lockedfile.truncAfterLock, if_true]
   all_goals (repeat' split)
   all_goals first
     | (simp [Pc.retNoHandle, Pc.fd?, Pc.locked, Ret.isHandle]; done)
@@ -260,10 +260,10 @@ theorem frame_step {w w' : World} {c held} {fr : Frame} {n sc tag f r} (hw : WIn
     case «open» =>
       simp at hs; obtain ⟨rfl, _⟩ := hs
       rcases osStep_open_spec h with ⟨e, hr, hw'⟩ | ⟨hr, hw'⟩
-      · subst hr; simp only [advancePc] at hpc'; subst hpc'
+      · subst hr; simp only [advancePc, finPc_eq] at hpc'; subst hpc'
         exact frameOK_nofd trivial (fun s hs' => by cases hs') rfl
       · subst hr hw'
-        simp [advancePc, Gen.Lockedfile.truncAfterLock] at hpc'; subst hpc'
+        simp [advancePc, finPc_eq, Gen.Lockedfile.truncAfterLock] at hpc'; subst hpc'
         refine frameOK_fd (fd := w.nextFd) trivial (fun s hs' => by cases hs') (fun fd' hfd => by simpa [Pc.fd?] using hfd) ?_ ?_ ?_
         · simp [Owns, OpenFD.static, openFlags_accRd, openFlags_accWr]
         · intro hmem
@@ -284,7 +284,7 @@ theorem frame_step {w w' : World} {c held} {fr : Frame} {n sc tag f r} (hw : WIn
       · -- the flock failed: retry (EINTR) or close
         subst hr hw'
         have : pc' = .lock fd ∨ pc' = .close fd .err false := by
-          rw [← hpc']; simp only [advancePc]
+          rw [← hpc']; simp only [advancePc, finPc_eq]
           cases e <;> simp [Gen.Lockedfile.retriesEINTR]
         rcases this with hp | hp <;> subst hp
         · exact frameOK_fd trivial (fun s hs' => by cases hs') (fun fd' hfd => by simpa [Pc.fd?] using hfd) o1 o2
@@ -293,7 +293,7 @@ theorem frame_step {w w' : World} {c held} {fr : Frame} {n sc tag f r} (hw : WIn
             (by simpa [Pc.locked] using o3)
       · -- the lock was granted
         subst hr hw'
-        simp only [advancePc] at hpc'; subst hpc'
+        simp only [advancePc, finPc_eq] at hpc'; subst hpc'
         have hpath : o.path = fr.op.path := o1.path ho
         have hspec : (afterLock fr.op fd).retNoHandle ∧ (∀ s, afterLock fr.op fd ≠ .user s) ∧
             ∀ fd', (afterLock fr.op fd).fd? = some fd' → fd = fd' ∧ (afterLock fr.op fd).locked = true := by
@@ -313,7 +313,7 @@ theorem frame_step {w w' : World} {c held} {fr : Frame} {n sc tag f r} (hw : WIn
       rcases osStep_funlock_spec h with ⟨e, hr, hw'⟩ | ⟨o, ho, hr, hw'⟩
       · subst hr hw'
         have : pc' = .unlock fd ret ∨ pc' = .close fd (closeRet fr.op ret true) true := by
-          rw [← hpc']; simp only [advancePc]
+          rw [← hpc']; simp only [advancePc, finPc_eq]
           cases e <;> simp [Gen.Lockedfile.retriesEINTR]
         rcases this with hp | hp <;> subst hp
         · exact frameOK_fd hr' (fun s hs' => by cases hs') (fun fd' hfd => by simpa [Pc.fd?] using hfd) o1 o2
@@ -321,7 +321,7 @@ theorem frame_step {w w' : World} {c held} {fr : Frame} {n sc tag f r} (hw : WIn
         · exact frameOK_fd (closeRet_isHandle _ _ _ hr') (fun s hs' => by cases hs')
             (fun fd' hfd => by simpa [Pc.fd?] using hfd) o1 o2 (by simpa [Pc.locked] using o3)
       · subst hr hw'
-        simp only [advancePc] at hpc'; subst hpc'
+        simp only [advancePc, finPc_eq] at hpc'; subst hpc'
         refine frameOK_fd hr' (fun s hs' => by cases hs') (fun fd' hfd => by simpa [Pc.fd?] using hfd) (o1.congr rfl) o2 ?_
         simp only [Pc.locked]
         intro p k hk
@@ -331,7 +331,7 @@ theorem frame_step {w w' : World} {c held} {fr : Frame} {n sc tag f r} (hw : WIn
       simp at hs; obtain ⟨rfl, _⟩ := hs
       have hr' : ret.isHandle = false := by have := hf.ret; rw [hpc] at this; exact this
       have : ∃ ret', pc' = .done ret' ∧ ret'.isHandle = false := by
-        rw [← hpc']; simp only [advancePc]
+        rw [← hpc']; simp only [advancePc, finPc_eq]
         split
         · exact ⟨_, rfl, hr'⟩
         · exact ⟨_, rfl, closeRet_isHandle _ _ _ hr'⟩
@@ -341,7 +341,7 @@ theorem frame_step {w w' : World} {c held} {fr : Frame} {n sc tag f r} (hw : WIn
       cases ret' <;> simp [Pc.fd?, Ret.isHandle] at hr'' ⊢
     case user s =>
       simp at hs; obtain ⟨rfl, _⟩ := hs
-      simp only [advancePc] at hpc'; subst hpc'
+      simp only [advancePc, finPc_eq] at hpc'; subst hpc'
       exact frameOK_nofd trivial (fun s hs' => by cases hs') rfl
     case done r => cases hs
 
@@ -391,8 +391,8 @@ theorem step_Inv1 {s s' : State} {l : Label} (hi : Inv1 s) (h : step s l = some 
         simp only [callable, Bool.and_eq_true, List.contains_iff_mem] at hcall
         obtain ⟨hm, _⟩ := hcall
         have hm : x ∈ (s.cl c').held := by simpa using hm
-        exact frameOK_fd (fd := x.fd) rfl (fun s hs' => by cases hs') (fun fd' hfd => by simpa [startPc, Pc.fd?] using hfd)
-          (hk.handles x hm).1 (erase_fd_notin hk.nodup hm) (by simp only [startPc, Pc.locked, if_true]; exact (hk.handles x hm).2)
+        exact frameOK_fd (fd := x.fd) rfl (fun s hs' => by cases hs') (fun fd' hfd => by simpa [startPc, finPc_eq, Pc.fd?] using hfd)
+          (hk.handles x hm).1 (erase_fd_notin hk.nodup hm) (by simp only [startPc, finPc_eq, Pc.locked, if_true]; exact (hk.handles x hm).2)
       | unlockM x =>
         simp only [callable, Bool.and_eq_true] at hcall
         obtain ⟨hm, hmu⟩ := hcall
@@ -400,14 +400,14 @@ theorem step_Inv1 {s s' : State} {l : Label} (hi : Inv1 s) (h : step s l = some 
         cases hxm : x.mu with
         | none => simp [hxm] at hmu
         | some m =>
-          have hp : startPc (.unlockM x) = .munlock x.fd m := by simp [startPc, hxm]
+          have hp : startPc (.unlockM x) = .munlock x.fd m := by simp [startPc, finPc_eq, hxm]
           refine frameOK_fd (fd := x.fd) (by simp only [hp]; trivial) (fun s hs' => by simp only [hp] at hs'; cases hs')
             (fun fd' hfd => by simpa [hp, Pc.fd?] using hfd) (hk.handles x hm).1 (erase_fd_notin hk.nodup hm) ?_
           simp only [hp, Pc.locked]; exact (hk.handles x hm).2
       | user x io =>
         simp only [callable, Bool.and_eq_true] at hcall
         have hm : x ∈ (s.cl c').held := by simpa using hcall.1
-        exact ⟨trivial, fun s hs' => ⟨x, io, rfl, by simpa [startPc] using hs'.symm, hm⟩, fun fd hfd => by simp [startPc, Pc.fd?] at hfd⟩
+        exact ⟨trivial, fun s hs' => ⟨x, io, rfl, by simpa [startPc, finPc_eq] using hs'.symm, hm⟩, fun fd hfd => by simp [startPc, finPc_eq, Pc.fd?] at hfd⟩
       | _ => exact frameOK_nofd trivial (fun s hs' => by cases hs') rfl
     · rw [setClient_cl_other _ _ _ _ hc]; exact hi.clients c'
   | sys f n =>
